@@ -412,6 +412,7 @@ type weaver struct {
 	genImports map[string]map[string]string // pkg dir -> name -> path
 	pkgNames map[string]string
 	errs  []string
+	orphans []*Contract // contracts whose function no longer exists
 }
 
 const verifspecPath = "github.com/grindlemire/go-lucene/internal/verifspec"
@@ -549,7 +550,9 @@ func fileImports(f *ast.File) map[string]string {
 func (w *weaver) weave(c *Contract) {
 	sf, fd := w.findFunc(c)
 	if fd == nil {
-		w.fail("%s: function %s not found in %s", c.File, c.FuncName, c.PkgDir)
+		// the function a contract names is gone (renamed, receiver kind changed, removed): only this
+		// contract is lost - it becomes one failed obligation of that function, the rest still loads
+		w.orphans = append(w.orphans, c)
 		return
 	}
 	// parameter list for wrappers
